@@ -41,8 +41,11 @@ MANIFEST = dict(
          "C11_group_transparent; composed: C11_transparent_sequential_all - for EVERY filter, recursive and non-recursive, "
          "normal and full emitter, over all histories in which every operation is drained (one read of the whole kernel "
          "queue, grouping, emission), from Inotify.__init__ on: the filtered watch queues exactly the accepted part of what "
-         "the unfiltered watch queues (repaired reader, F10: for recursive watches under the hypothesis regular_from - the "
-         "record after a directory move-out is one both watches are sent; non-recursive watches need no such hypothesis); C11_pipeline_tie_filtered / C11_pipeline_transparent_step tie one drained operation "
+         "the unfiltered watch queues (repaired reader, F10: the filtered reader of a recursive watch may forget a moved-out "
+         "directory later than the unfiltered one - the LAG; it is covered by a bisimulation on normal forms, C11_lag_step / "
+         "C11_norm_fwd / C11_norm_bwd / C11_inert, under one filter-independent executable hypothesis on the UNFILTERED run, "
+         "tidy_from: at drained points the reader's tables mention live kernel watches only; non-recursive watches and the "
+         "pinned reader need no such hypothesis); C11_pipeline_tie_filtered / C11_pipeline_transparent_step tie one drained operation "
          "to Pipeline.prun with pc_filter. C11_table_refuted_pinned / C11_item_stream_refuted_pinned record F6. The "
          "unrestricted statement is kept as C11_full (gaps: undrained bursts, the skip-repeats queue, the induction over "
          "whole Pipeline histories) and is checked on the real kernel by the two-watch oracle.",
@@ -67,10 +70,12 @@ ASSUMPTIONS = [
     "filter, both kinds of watch, every history in which each operation is followed by a read of the whole kernel queue and "
     "the emission of every item (hypotheses: root path non-empty and not ending in '/', rename sources have a base name). "
     "Not covered by proof: several operations per read (kernel coalescing differs between masks), pairing across reads "
-    "through the delay queue; with the repaired reader (F10) also the LAG case of a recursive filtered watch: after a "
-    "directory moved out of the tree, an operation whose records the filter's mask excludes makes the unfiltered reader "
-    "forget the directory before the filtered one does (no visible effect; C11_lag_instance shows one such history by "
-    "computation). These are covered by the real-kernel oracle and the lock-step only",
+    "through the delay queue. These are covered by the real-kernel oracle and the lock-step only",
+    "repaired reader (F10), recursive watches: the history theorems assume tidy_from - at every drained point of the "
+    "UNFILTERED run the (settled) reader's _path_for_wd/_wd_for_path mention descriptors of live kernel watches only. It "
+    "says nothing about the filter, is executable (tidy_fromb) and is discharged by vm_compute in C11_lag_covered / "
+    "C11_full_drained_lag_nonvacuous; it is a part of C02's cover invariant at synced states (WInv.wi_tight) plus 'no "
+    "stale key in _path_for_wd', which is not derived in Coq for arbitrary histories",
     "end-to-end oracle: operations are issued one at a time with a drain in between (the regime of the proved theorem)",
     "filters are built from the 11 concrete event classes and the 2 base classes of watchdog.events",
 ]
